@@ -4,7 +4,11 @@ import (
 	"bytes"
 	"fmt"
 	"go/ast"
+	"go/parser"
 	"go/printer"
+	"os"
+	"path/filepath"
+	"sort"
 	"strings"
 )
 
@@ -24,6 +28,18 @@ import (
 // expression; `defer` of a Lock; a function literal, `go` statement or `defer` (other than `defer X.Unlock()`) that
 // contains one of the actions; MClientConn.writeHeaders not consisting of Framer.writeHeaders + Framer.writeContinuation
 // calls without mutex operations (the helper is read as one `wr`).
+// The list of functions is not fixed: EVERY function of the package (non-test, non-verif files of pkg/module/http2)
+// whose body contains an `enc` or a `wr` action is found again on each run (c02wScan):
+//   declared in mhttp2.go  => it is placed on a connection side by its receiver type (M…Server… / MStream: server,
+//                             M…Client…: client) and its action list is emitted into serverFns / clientFns; the helper
+//                             MClientConn.writeHeaders is the only exception (read as `wr`); a function that cannot be
+//                             placed is rejected;
+//   declared elsewhere     => its name goes into stockUsers (the x/net code MOSN carries along: serve loop / RoundTrip
+//                             paths with their own write scheduler / wmu, not reachable through the M… types); Props/C02
+//                             pins that list, so a new encoder user anywhere in the package breaks the tie.
+// Mutex expressions are connection level only: `<recv>.mu` / `<recv>.hmu` in a method of a connection type
+// (MServerConn, MClientConn), `<recv>.conn.mu` / `<recv>.conn.hmu` / `conn.mu` / `conn.hmu` (after `conn := <recv>.conn`)
+// in a method of a stream type; anything else is rejected.
 // All helpers are prefixed c02w.
 
 func init() { register("H2WriteLock", c02wGen) }
@@ -38,24 +54,46 @@ func c02wSrc(n ast.Node) string {
 
 var c02wLockNames = map[string]bool{"Lock": true, "Unlock": true, "RLock": true, "RUnlock": true, "TryLock": true, "TryRLock": true, "RLocker": true}
 
+// c02wRecv: the receiver of the function being walked (set by c02wActsOf).
+var c02wRecv struct {
+	name   string // receiver variable
+	isConn bool   // receiver type is a connection type
+	conn   bool   // body contains `conn := <recv>.conn`
+}
+
+// c02wMutex names the connection-level mutex an expression denotes ("" if none / not recognised).
+func c02wMutex(recv string) string {
+	r := c02wRecv.name
+	if r == "" {
+		return ""
+	}
+	var ok []string
+	if c02wRecv.isConn {
+		ok = []string{r + "."}
+	} else {
+		ok = []string{r + ".conn."}
+		if c02wRecv.conn {
+			ok = append(ok, "conn.")
+		}
+	}
+	for _, pre := range ok {
+		switch recv {
+		case pre + "mu":
+			return "mu"
+		case pre + "hmu":
+			return "hmu"
+		}
+	}
+	return ""
+}
+
 // c02wClassify: "" (not an action), "lock:m", "unlock:m", "enc", "wr:headers", "wr:continuation", "wr:conn".
 func c02wClassify(c *ast.CallExpr) (string, error) {
-	switch fn := c.Fun.(type) {
-	case *ast.Ident:
-		if fn.Name == "encKV" || fn.Name == "encodeHeaders" {
-			return "enc", nil
-		}
-	case *ast.SelectorExpr:
+	if fn, ok := c.Fun.(*ast.SelectorExpr); ok {
 		recv := c02wSrc(fn.X)
 		name := fn.Sel.Name
 		if c02wLockNames[name] {
-			m := ""
-			switch {
-			case strings.HasSuffix(recv, ".mu"):
-				m = "mu"
-			case strings.HasSuffix(recv, ".hmu"):
-				m = "hmu"
-			}
+			m := c02wMutex(recv)
 			if m == "" || (name != "Lock" && name != "Unlock") || len(c.Args) != 0 {
 				return "", fmt.Errorf("unrecognised mutex operation %s.%s at %s", recv, name, fset.Position(c.Pos()))
 			}
@@ -64,7 +102,24 @@ func c02wClassify(c *ast.CallExpr) (string, error) {
 			}
 			return "unlock:" + m, nil
 		}
-		if name == "encodeHeaders" || name == "encodeTrailers" {
+	}
+	return c02wEncWr(c)
+}
+
+// c02wEncWr: the encode / frame-write part of the classification (no mutex operations; usable on any function).
+func c02wEncWr(c *ast.CallExpr) (string, error) {
+	switch fn := c.Fun.(type) {
+	case *ast.Ident:
+		if fn.Name == "encKV" || fn.Name == "encodeHeaders" {
+			return "enc", nil
+		}
+	case *ast.SelectorExpr:
+		recv := c02wSrc(fn.X)
+		name := fn.Sel.Name
+		if name == "writeHeader" && (recv == "cc" || strings.HasSuffix(recv, ".conn") || strings.HasSuffix(recv, ".cc")) {
+			return "enc", nil
+		}
+		if name == "encodeHeaders" || name == "encodeTrailers" || name == "WriteField" || name == "HeaderEncoder" {
 			return "enc", nil
 		}
 		if id, ok := fn.X.(*ast.Ident); ok && id.Name == "enc" {
@@ -79,7 +134,9 @@ func c02wClassify(c *ast.CallExpr) (string, error) {
 			return "wr:headers", nil
 		case name == "writeContinuation" && isFramer:
 			return "wr:continuation", nil
-		case name == "writeHeaders":
+		case name == "writeHeaders" && len(c.Args) == c02wHelperArity:
+			// the client helper MClientConn.writeHeaders(streamID, endStream, maxFrameSize, hdrs); a call with another
+			// number of arguments is a call of MServerConn.writeHeaders(w), which is walked as a function of its own
 			return "wr:conn", nil
 		case name == "writeContinuation":
 			return "", fmt.Errorf("writeContinuation on %s (not a Framer) at %s", recv, fset.Position(c.Pos()))
@@ -176,6 +233,122 @@ func c02wLean(a string) string {
 	return ".wr"
 }
 
+// c02wHelperArity: number of parameters of MClientConn.writeHeaders (set by c02wGen).
+var c02wHelperArity = 4
+
+// c02wUses reports whether the body contains an encode or a header-frame write action (mutex operations ignored).
+func c02wUses(n ast.Node) bool {
+	found := false
+	ast.Inspect(n, func(m ast.Node) bool {
+		if c, ok := m.(*ast.CallExpr); ok {
+			if a, err := c02wEncWr(c); a != "" || err != nil {
+				found = true
+			}
+		}
+		return !found
+	})
+	return found
+}
+
+func c02wRecvType(fd *ast.FuncDecl) (typ, name string) {
+	if fd.Recv == nil || len(fd.Recv.List) == 0 {
+		return "", ""
+	}
+	t := fd.Recv.List[0].Type
+	if s, ok := t.(*ast.StarExpr); ok {
+		t = s.X
+	}
+	if id, ok := t.(*ast.Ident); ok {
+		typ = id.Name
+	}
+	if len(fd.Recv.List[0].Names) > 0 {
+		name = fd.Recv.List[0].Names[0].Name
+	}
+	return
+}
+
+func c02wFnName(fd *ast.FuncDecl) string {
+	if t, _ := c02wRecvType(fd); t != "" {
+		return t + "." + fd.Name.Name
+	}
+	return fd.Name.Name
+}
+
+// c02wActsOf: the action list of one function of mhttp2.go, mutexes resolved against its receiver.
+func c02wActsOf(fd *ast.FuncDecl) ([]string, error) {
+	typ, name := c02wRecvType(fd)
+	c02wRecv.name = name
+	c02wRecv.isConn = typ == "MServerConn" || typ == "MClientConn"
+	c02wRecv.conn = false
+	if name != "" {
+		ast.Inspect(fd.Body, func(n ast.Node) bool {
+			if as, ok := n.(*ast.AssignStmt); ok && len(as.Lhs) == 1 && len(as.Rhs) == 1 {
+				if c02wSrc(as.Lhs[0]) == "conn" {
+					if c02wSrc(as.Rhs[0]) == name+".conn" && !c02wRecv.conn {
+						c02wRecv.conn = true
+					} else {
+						c02wRecv.name = "" // conn assigned something else / twice: no mutex expression is recognised
+					}
+				}
+			}
+			return true
+		})
+	}
+	defer func() { c02wRecv.name = "" }()
+	return c02wActs(fd)
+}
+
+// c02wSide places a receiver type of mhttp2.go on a connection side.
+func c02wSide(typ string) string {
+	switch {
+	case !strings.HasPrefix(typ, "M"):
+		return ""
+	case strings.Contains(typ, "Server") || typ == "MStream":
+		return "server"
+	case strings.Contains(typ, "Client"):
+		return "client"
+	}
+	return ""
+}
+
+type c02wUser struct {
+	name string
+	fd   *ast.FuncDecl
+}
+
+// c02wScan: every function of the package with an encode or header-frame write action: those of mhttp2.go (with their
+// declarations) and the names of the others.
+func c02wScan() (mfns []c02wUser, stock []string, err error) {
+	dir := filepath.Dir(c02wSrcFile)
+	ents, err := os.ReadDir(filepath.Join(repo, dir))
+	if err != nil {
+		return nil, nil, err
+	}
+	for _, e := range ents {
+		n := e.Name()
+		if e.IsDir() || !strings.HasSuffix(n, ".go") || strings.HasSuffix(n, "_test.go") || strings.HasPrefix(n, "verif_") {
+			continue
+		}
+		f, err := parser.ParseFile(fset, filepath.Join(repo, dir, n), nil, 0)
+		if err != nil {
+			return nil, nil, err
+		}
+		for _, d := range f.Decls {
+			fd, ok := d.(*ast.FuncDecl)
+			if !ok || fd.Body == nil || !c02wUses(fd.Body) {
+				continue
+			}
+			if n == filepath.Base(c02wSrcFile) {
+				mfns = append(mfns, c02wUser{c02wFnName(fd), fd})
+			} else {
+				stock = append(stock, c02wFnName(fd))
+			}
+		}
+	}
+	sort.Strings(stock)
+	return mfns, stock, nil
+}
+
 func c02wGen() (string, error) {
 	f, err := parse(c02wSrcFile)
 	if err != nil {
@@ -186,7 +359,17 @@ func c02wGen() (string, error) {
 	if helper == nil || helper.Body == nil {
 		return "", fmt.Errorf("MClientConn.writeHeaders not found in %s", c02wSrcFile)
 	}
-	hacts, err := c02wActs(helper)
+	c02wHelperArity = 0
+	for _, p := range helper.Type.Params.List {
+		if len(p.Names) == 0 {
+			c02wHelperArity++
+		}
+		c02wHelperArity += len(p.Names)
+	}
+	if srv := findFunc(f, "MServerConn", "writeHeaders"); srv == nil || srv.Type.Params.NumFields() == c02wHelperArity {
+		return "", fmt.Errorf("MServerConn.writeHeaders missing or with as many parameters as the client helper: calls cannot be told apart")
+	}
+	hacts, err := c02wActsOf(helper)
 	if err != nil {
 		return "", fmt.Errorf("MClientConn.writeHeaders: %v", err)
 	}
@@ -204,34 +387,62 @@ func c02wGen() (string, error) {
 	if nh == 0 || nc == 0 {
 		return "", fmt.Errorf("MClientConn.writeHeaders: %d Framer.writeHeaders and %d Framer.writeContinuation calls (need at least one of each)", nh, nc)
 	}
-	type fn struct{ lean, recv, name string }
-	fns := []fn{
-		{"serverWriteHeaders", "MServerConn", "writeHeaders"},
-		{"clientWriteHeaders", "MClientConn", "WriteHeaders"},
-		{"clientTrailers", "MClientStream", "writeDataAndTrailer"},
+	mfns, stock, err := c02wScan()
+	if err != nil {
+		return "", err
+	}
+	named := map[string]string{
+		"MServerConn.writeHeaders":          "serverWriteHeaders",
+		"MClientConn.WriteHeaders":          "clientWriteHeaders",
+		"MClientStream.writeDataAndTrailer": "clientTrailers",
 	}
 	var b strings.Builder
-	b.WriteString(header("H2WriteLock", c02wSrcFile))
+	b.WriteString(header("H2WriteLock", c02wSrcFile, filepath.Dir(c02wSrcFile)+"/*.go"))
 	b.WriteString("inductive Act | lock (m : String) | unlock (m : String) | deferUnlock (m : String) | enc | wr\n  deriving DecidableEq, Repr\n")
 	b.WriteString("structure Fn where\n  name : String\n  acts : List Act\n  deriving DecidableEq, Repr\n")
-	var names []string
-	for _, x := range fns {
-		fd := findFunc(f, x.recv, x.name)
-		if fd == nil || fd.Body == nil {
-			return "", fmt.Errorf("%s.%s not found in %s", x.recv, x.name, c02wSrcFile)
+	sides := map[string][]string{}
+	seen := map[string]bool{}
+	for _, u := range mfns {
+		if u.name == "MClientConn.writeHeaders" {
+			continue
 		}
-		acts, err := c02wActs(fd)
+		typ, _ := c02wRecvType(u.fd)
+		side := c02wSide(typ)
+		if side == "" {
+			return "", fmt.Errorf("%s uses the HPACK encoder or writes header frames but cannot be placed on a connection side", u.name)
+		}
+		if seen[u.name] {
+			return "", fmt.Errorf("%s declared twice", u.name)
+		}
+		seen[u.name] = true
+		acts, err := c02wActsOf(u.fd)
 		if err != nil {
-			return "", fmt.Errorf("%s.%s: %v", x.recv, x.name, err)
+			return "", fmt.Errorf("%s: %v", u.name, err)
 		}
 		var ls []string
 		for _, a := range acts {
 			ls = append(ls, c02wLean(a))
 		}
-		fmt.Fprintf(&b, "def %s : Fn := ⟨\"%s.%s\", [%s]⟩\n", x.lean, x.recv, x.name, strings.Join(ls, ", "))
-		names = append(names, x.lean)
+		lit := fmt.Sprintf("⟨\"%s\", [%s]⟩", u.name, strings.Join(ls, ", "))
+		if ln, ok := named[u.name]; ok {
+			fmt.Fprintf(&b, "def %s : Fn := %s\n", ln, lit)
+			lit = ln
+		}
+		sides[side] = append(sides[side], lit)
 	}
-	fmt.Fprintf(&b, "def fns : List Fn := [%s]\n", strings.Join(names, ", "))
+	for n := range named {
+		if !seen[n] {
+			return "", fmt.Errorf("%s not found (or without encode / write action) in %s", n, c02wSrcFile)
+		}
+	}
+	fmt.Fprintf(&b, "def serverFns : List Fn := [%s]\n", strings.Join(sides["server"], ", "))
+	fmt.Fprintf(&b, "def clientFns : List Fn := [%s]\n", strings.Join(sides["client"], ", "))
+	b.WriteString("def fns : List Fn := serverFns ++ clientFns\n")
+	var qs []string
+	for _, n := range stock {
+		qs = append(qs, fmt.Sprintf("%q", n))
+	}
+	fmt.Fprintf(&b, "def stockUsers : List String := [%s]\n", strings.Join(qs, ", "))
 	b.WriteString(footer("H2WriteLock"))
 	return b.String(), nil
 }
